@@ -51,7 +51,8 @@ Record trtables := {
   tt_datefmt : trdatefmt;
   tt_template_name : str; tt_output_file : str;
   tt_template : list trtemplate;                     (* sheets of the shipped template, file order *)
-  tt_legend_method_row : option Z }.                 (* row of the legend whose first cell is "Accounting Method" *)
+  tt_legend_method_row : option Z;                   (* row of the legend whose first cell is "Accounting Method" *)
+  tt_legend_single_by_value : bool }.                (* one-entry schedule: the entry's own method (true) or the entry keyed 1970 (false, KeyError if absent) *)
 """
 
 NOTE_EV = ("f'{current_taxable_event_fraction}/{total_taxable_event_fractions}: {gain_loss.crypto_amount:.8f} of "
@@ -455,6 +456,62 @@ def _template(repo, cc, name):
     return sheets, legend_row, os.path.basename(files[0])
 
 
+def _ods_generator(repo):
+    """AbstractODSGenerator._initialize_output_file: the statements the model reproduces must be there verbatim;
+    returns how the method of a one-entry schedule is obtained (by value / under the key 1970)"""
+    with open(os.path.join(repo, "src", "rp2", "plugin", "report", "abstract_ods_generator.py"), encoding="utf-8") as f:
+        tree = ast.parse(f.read())
+    cls = find_class(tree, "AbstractODSGenerator")
+    fn = find_method(cls, "_initialize_output_file")
+    src = ast.unparse(fn)
+    need = [
+        "legend_sheet_name: str = f'__Legend_{cls.get_name()}'",
+        "template_sheets_to_keep_with_legend.add(legend_sheet_name)",
+        "for sheet_name in output_file.sheets.names():",
+        "if sheet_name in template_sheets_to_keep_with_legend:",
+        "output_file.sheets[index].name = sheet_name[2:]",
+        "elif sheet_name.startswith('__'):",
+        "sheet_indexes_to_remove.append(index)",
+        "legend_sheet: Any = output_file.sheets[legend_sheet_name[2:]]",
+        "cls._fill_page(legend_data, legend_sheet, 0, 0)",
+        "for index in range(0, 100):",
+        "if legend_sheet[index, 0].value == _('Accounting Method'):",
+        "if len(years_2_accounting_method_names) == 1:",
+        "old_year = MIN_DATE.year",
+        "for year, method in years_2_accounting_method_names.items():",
+        "if year - old_year > 1:",
+        "accounting_method_by_year.append(f'{old_year}->{year}:{method.upper()}')",
+        "accounting_method_by_year.append(f'{year}:{method.upper()}')",
+        "cls._fill_cell(legend_sheet, index, 1, ', '.join(accounting_method_by_year), visual_style='transparent')",
+        "cls._fill_cell(legend_sheet, index + 1, 1, from_date if from_date != MIN_DATE else 'non-specified', visual_style='transparent')",
+        "cls._fill_cell(legend_sheet, index + 2, 1, to_date if to_date != MAX_DATE else 'non-specified', visual_style='transparent')",
+        "legend_sheet.name = _('Legend')",
+        "for index in reversed(sheet_indexes_to_remove):",
+        "del output_file.sheets[index]",
+        "return output_file",
+    ]
+    for n in need:
+        if n not in src:
+            raise Unrecognised(f"_initialize_output_file: missing `{n[:60]}`")
+    if src.count("accounting_method_by_year.append(") != 3:
+        raise Unrecognised("_initialize_output_file: method list construction")
+    keyed = src.count("years_2_accounting_method_names[MIN_DATE.year]")
+    if keyed == 0 and "accounting_method_by_year.append(accounting_method.upper())" in src and \
+            ("accounting_method: str = next(iter(years_2_accounting_method_names.values())) "
+             "if len(years_2_accounting_method_names) == 1 else 'mixed'") in src:
+        by_value = True
+    elif keyed == 2 and "accounting_method_by_year.append(years_2_accounting_method_names[MIN_DATE.year].upper())" in src:
+        by_value = False
+    else:
+        raise Unrecognised("_initialize_output_file: single-method lookup shape")
+    fc = ast.unparse(find_method(cls, "_fill_cell"))
+    for n in ["if isinstance(value, RP2Decimal):", "value = float(value)", "sheet[row_index, column_index].set_value(value)",
+              "sheet[row_index, column_index].formula = value"]:
+        if n not in fc:
+            raise Unrecognised(f"_fill_cell: missing `{n}`")
+    return by_value
+
+
 def _one(repo, cc):
     with open(os.path.join(repo, "src", "rp2", "plugin", "report", cc, f"tax_report_{cc}.py"), encoding="utf-8") as f:
         tree = ast.parse(f.read())
@@ -488,7 +545,8 @@ def _one(repo, cc):
     t += ";\n".join(f"    {{| tp_name := {strlit(n)} (* {n} *); tp_rows := {nr}; tp_cols := {nc};\n"
                     f"       tp_cells := [{'; '.join(f'({r}, {c})' for r, c in cells)}] |}}" for n, nr, nc, cells in sheets)
     t += "];\n"
-    t += f"  tt_legend_method_row := {'None' if legend_row is None else f'Some {legend_row}'} |}}.\n"
+    t += f"  tt_legend_method_row := {'None' if legend_row is None else f'Some {legend_row}'};\n"
+    t += f"  tt_legend_single_by_value := {'true' if _ods_generator(repo) else 'false'} |}}.\n"
     return t
 
 
